@@ -1,5 +1,8 @@
 // Stub linker: `ld -o <output> ... inputs ...`. Reads every input that is not a system file,
 // writes "EXE <n> <fnv>\n". Fails on missing/unreadable inputs or on an input containing LDFAIL.
+// Library and linker options the workload generator invents (-lvsim*, --vsimw* via -Wl, --vsimx* via -Xlinker)
+// are part of the hash: -lvsim* / --vsimw* where they stand among the inputs, --vsimx* (whose place the driver may
+// choose) after everything else, in their own order.
 #include <stdio.h>
 #include <stdlib.h>
 #include <string.h>
@@ -11,11 +14,23 @@ int main(int argc, char **argv) {
   const char *out = "a.out";
   unsigned long h = 0xcbf29ce484222325ul, n = 0;
   int bad = 0;
+  char extra[4096];
+  size_t ne = 0;
   for (int i = 1; i < argc; i++) {
     const char *a = argv[i];
     if (!strcmp(a, "-o") || !strcmp(a, "-m") || !strcmp(a, "-dynamic-linker") || !strcmp(a, "-L")) {
       if (!strcmp(a, "-o") && i + 1 < argc) out = argv[i + 1];
       i++;
+      continue;
+    }
+    if (!strncmp(a, "-lvsim", 6) || !strncmp(a, "--vsimw", 7)) {
+      for (const char *c = a; *c; c++) h = (h ^ (unsigned char)*c) * 0x100000001b3ul;
+      h = (h ^ '\n') * 0x100000001b3ul;
+      continue;
+    }
+    if (!strncmp(a, "--vsimx", 7)) {
+      size_t l = strlen(a);
+      if (ne + l + 1 < sizeof extra) { memcpy(extra + ne, a, l); extra[ne + l] = '\n'; ne += l + 1; }
       continue;
     }
     if (a[0] == '-') continue;
@@ -36,6 +51,7 @@ int main(int argc, char **argv) {
     if (ferror(f)) { fprintf(stderr, "stub-ld: read error on %s\n", a); return 1; }
     fclose(f);
   }
+  for (size_t j = 0; j < ne; j++) h = (h ^ (unsigned char)extra[j]) * 0x100000001b3ul;
   if (bad) { fprintf(stderr, "stub-ld: undefined reference\n"); return 1; }
   FILE *o = fopen(out, "w");
   if (!o) { fprintf(stderr, "stub-ld: cannot open output file %s\n", out); return 1; }
